@@ -30,9 +30,10 @@ class I:
     """integer value: python int (normalised, unsigned representation) or z3 bit-vector.
     Optional decimal-structure annotation `dec` = [d_0, d_1, ...] (8-bit digit terms, each assumed <= 9, least significant
     first) stating value = sum d_i * 10^i without wrap-around; `negof` = the annotated magnitude of a negative value."""
-    __slots__ = ('v', 'ty', 'dec', 'negof')
+    __slots__ = ('v', 'ty', 'dec', 'negof', 'scaled')
 
     def __init__(self, v, ty, dec=None, negof=None):
+        self.scaled = None      # (k, x): this value is k * x for a decimal-annotated x (kept for table lookups indexed by digits)
         if isinstance(v, int):
             v &= (1 << BITS[ty]) - 1
         self.v = v
@@ -242,6 +243,14 @@ class Enum:
         return "%s(%s)" % (self.variant, ','.join(map(repr, self.fields)))
 
 
+class Clo(list):
+    """a closure value: its captures, tagged with the closure's source span (so that generic `F: Fn..` parameters can be called)"""
+    def __init__(self, items, loc, home=None):
+        list.__init__(self, items)
+        self.loc = loc
+        self.home = home        # the function whose body created the closure
+
+
 class Opaque:
     """a value the interpreter only passes around (Box<dyn Read>, closures' environments...)"""
     def __init__(self, tag, payload=None):
@@ -255,6 +264,8 @@ DISCR = {'None': 0, 'Some': 1, 'Ok': 0, 'Err': 1, 'Less': -1, 'Equal': 0, 'Great
 
 
 def copyval(v):
+    if isinstance(v, Clo):
+        return Clo([copyval(x) for x in v], v.loc, v.home)
     if isinstance(v, list):
         return [copyval(x) for x in v]
     if isinstance(v, Arr):
@@ -488,7 +499,7 @@ def parse_rvalue(s):
         t = s[1:].strip()
         if t.startswith(('_', '(')):
             return ('ref', parse_place(t))
-    m = re.match(r'^((?:copy|move|const) .*?) as (.+?) \((\w+)(\(.*\))?\)$', s)
+    m = re.match(r'^((?:copy|move|const) .*) as (.+?) \((\w+)(\(.*\))?\)$', s)
     if m:
         return ('cast', m.group(3), m.group(2).strip(), parse_operand(m.group(1)))
     m = re.match(r'^\[(.*); (\d+|[A-Z]\w*)\]$', s)
@@ -764,6 +775,8 @@ class Machine:
             return True
         if s == '()':
             return []
+        if re.match(r'^Option::<.*>::None$', s):
+            return Enum('None')
         if s.startswith('ZeroSized: '):
             return Opaque('zst', s[11:])          # closures without captures, unit-like values
         m = re.match(r"^(-?\d+)_(\w+)$", s)
@@ -927,6 +940,24 @@ class Machine:
                     m2 = mk_dec(nd, 'u' + ty[1:])
                     r = I(z3.simplify(-m2.z()), ty, negof=m2)
                 return [r, bnot(mk_bool(fits))]
+        if op in ('Ge', 'Lt', 'Gt', 'Le') and not b.sym() and a.dec is not None and not sg and b.v >= 10 and str(b.v).strip('0') == '1':
+            # decimal-structure lemma L5: sum d_i 10^i >= 10^k  <=>  some digit d_j with j >= k is non-zero (digits <= 9)
+            k = len(str(b.v)) - 1
+            self.prog.used_lemmas.add(('cmp-pow10', k, bits, len(a.dec)))
+            hi = mk_bool(z3.Or([d != 0 for d in a.dec[k:]])) if a.dec[k:] else False
+            if op == 'Ge':
+                return hi
+            if op == 'Lt':
+                return bnot(hi)
+            # > 10^k: >= 10^k and not exactly 10^k
+            exact = mk_bool(z3.And([d == (1 if j == k else 0) for j, d in enumerate(a.dec)])) if len(a.dec) > k else False
+            gt = hi if exact is False else mk_bool(z3.And(zbool(hi), z3.Not(zbool(exact))))
+            return gt if op == 'Gt' else bnot(gt)
+        if op in ('MulWithOverflow', 'Mul') and not b.sym() and a.dec is not None and not sg and 2 <= b.v <= 8 and len(a.dec) <= 4 and bits >= 32:
+            # small multiple of a short decimal-annotated value (an index into a digit table): no overflow, provenance kept
+            r = mk_int(a.z() * b.v, ty)
+            r.scaled = (b.v, a)
+            return [r, False] if op == 'MulWithOverflow' else r
         if op in ('Div', 'Rem') and not sg and not b.sym() and a.dec is not None and b.v >= 10 and str(b.v).strip('0') == '1':
             # decimal-structure lemma L1: (sum_{i<n} d_i 10^i) div 10^k = sum_{i>=k} d_i 10^(i-k) and mod 10^k = sum_{i<k} d_i 10^i
             k = len(str(b.v)) - 1
@@ -1058,7 +1089,10 @@ class Machine:
         if k in ('tuple',):
             return [self.operand(fr, o) for o in rv[1]]
         if k == 'struct':
-            return [self.operand(fr, o) for o in rv[2]]
+            vals = [self.operand(fr, o) for o in rv[2]]
+            if rv[1].startswith('{closure@'):
+                return Clo(vals, rv[1][9:-1], fr.fn)
+            return vals
         if k == 'variant':
             return Enum(rv[2], [self.operand(fr, o) for o in rv[3]])
         if k == 'discr':
@@ -1073,6 +1107,29 @@ class Machine:
         if k == 'len':
             return I(self.lookup(fr, rv[1]).load().n, 'usize')
         raise Unsupported('rvalue kind ' + k)
+
+    def _complete_closure(self, fr, clo, st, block):
+        """rustc's MIR printer zips a closure's capture operands with the ROOT variables captured, so a closure that captures
+        two places of the same variable (self.buf and self.begin) is printed with one operand only. The missing operands are the
+        reference temporaries assigned right before the aggregate, in order; the number of captures is read off the closure body."""
+        body = [f for f in self.prog.fns if '{closure#' in f.name and re.search(r'\(_1: (?:&mut |&)?\{closure@%s\}' % re.escape(clo.loc), f.header)]
+        if not body:
+            return
+        txt = '\n'.join(x for b in body[0].blocks.values() for x in b)
+        idx = [int(a or b) for a, b in re.findall(r'\(\(\*_1\)\.(\d+): |\(_1\.(\d+): ', txt)]
+        need = (max(idx) + 1) if idx else len(clo)
+        if need <= len(clo):
+            return
+        ops = st[2][2]
+        if not ops or ops[-1][0] not in ('move', 'copy') or ops[-1][1][0] != 'local':
+            raise Unsupported('closure aggregate printed with fewer captures than the closure uses')
+        last = int(ops[-1][1][1][1:])
+        assigned = {s2[1][1] for s2 in block if s2[0] == 'assign' and s2[1][0] == 'local'}
+        for j in range(last + 1, last + 1 + need - len(clo)):
+            name = '_%d' % j
+            if name not in assigned or name not in fr.locals:
+                raise Unsupported('closure aggregate printed with fewer captures than the closure uses (cannot recover %s)' % name)
+            clo.append(fr.locals[name])
 
     # ---- run a function
     def run(self, f, args, subst=None):
@@ -1090,6 +1147,8 @@ class Machine:
                 k = st[0]
                 if k == 'assign':
                     val = self.rvalue(fr, st[2])
+                    if isinstance(val, Clo):
+                        self._complete_closure(fr, val, st, blocks[bb])
                     self.lookup(fr, st[1]).store(val)
                     continue
                 if k == 'return':
@@ -1116,7 +1175,12 @@ class Machine:
                         c = self.concretize(v, ks)
                         c = 'otherwise' if c == 'other' else str(c)
                     else:
-                        c = str(v.v) if str(v.v) in dict(arms) else (str(v.sval()) if str(v.sval()) in dict(arms) else 'otherwise')
+                        d0 = dict(arms)
+                        cands = [str(v.v), str(v.sval())]
+                        if v.ty == 'isize' and v.sval() < 0:
+                            # a negative enum discriminant (Ordering::Less) is printed in the width of the enum's tag
+                            cands += [str(v.v & 0xff), str(v.v & 0xffff), str(v.v & 0xffffffff)]
+                        c = next((x for x in cands if x in d0), 'otherwise')
                     d = dict(arms)
                     if c not in d:
                         c = 'otherwise'
@@ -1304,6 +1368,12 @@ class Program:
         if fn:
             self.used_models.add(callee)
             return fn(m, fr, args, None)
+        # a private free function / helper of the crate called by its path
+        if re.match(r'^[A-Za-z_][\w:]*$', callee):
+            tail = callee.split('::')[-1]
+            c = [f for f in self.fns if getattr(f, 'kind', None) is None and '{closure' not in f.name and 'promoted' not in f.name and (f.name == callee or f.name.endswith('::' + callee) or f.name == tail)]
+            if len(c) == 1 and len(c[0].argnames) == len(args):
+                return m.run(c[0], args, fr.subst if fr is not None else {})
         for rx, fn in self.model_rx:
             mm = rx.match(callee)
             if mm:
